@@ -244,4 +244,63 @@ theorem Inv2.of_reachable (fp : Hash → Bool) {c : Cfg} (h : Reachable fp c) : 
   | init c hi => exact Inv2.of_initial hi
   | step c c' hr hs ih => exact Inv2.step fp hs (Inv.of_reachable fp hr) ih
 
+/-! ### C21: reconnecting.  Both sides come back with `sent_hashes = []` and `peer_read_only = false`
+    (fresh or persisted), the links are empty: the additional invariants survive trivially. -/
+
+theorem Inv2.reconnect {c : Cfg} (i2 : Inv2 c) (ra rb : Reconn) : Inv2 (c.reconnect ra rb) := by
+  refine ⟨⟨?_, i2.a.stuck, ?_, ?_⟩, ⟨?_, i2.b.stuck, ?_, ?_⟩⟩
+  · cases ra <;> (intro h hh; cases hh)
+  · cases ra <;> rfl
+  · intro m hm; cases hm
+  · cases rb <;> (intro h hh; cases hh)
+  · cases rb <;> rfl
+  · intro m hm; cases hm
+
+theorem Inv2.of_reachable21 (fp : Hash → Bool) {c : Cfg} (h : Reachable21 fp c) : Inv2 c := by
+  induction h with
+  | init c hi => exact Inv2.of_initial hi
+  | step c c' hr hs ih =>
+    cases hs with
+    | base _ hb => exact Inv2.step fp hb (Inv.of_reachable21 fp hr) ih
+    | reconnect ra rb => exact ih.reconnect ra rb
+
+/-! ### all that the progress argument needs to know about a configuration -/
+
+/-- the safety invariants of C20 (`Inv`) and the three additional ones (`Inv2`).  Every
+    configuration reachable in the two-peer system — with or without reconnects — is `Good`, and
+    `Good` is closed under the steps of the system, hence under rounds. -/
+structure Good (c : Cfg) : Prop where
+  inv : Inv c
+  inv2 : Inv2 c
+
+theorem Good.of_reachable (fp : Hash → Bool) {c : Cfg} (h : Reachable fp c) : Good c :=
+  ⟨Inv.of_reachable fp h, Inv2.of_reachable fp h⟩
+
+theorem Good.of_reachable21 (fp : Hash → Bool) {c : Cfg} (h : Reachable21 fp c) : Good c :=
+  ⟨Inv.of_reachable21 fp h, Inv2.of_reachable21 fp h⟩
+
+theorem Good.step {fp : Hash → Bool} {c c' : Cfg} (g : Good c) (h : Step fp c c') : Good c' :=
+  ⟨Inv.step fp h g.inv, Inv2.step fp h g.inv g.inv2⟩
+
+theorem Good.swap {c : Cfg} (g : Good c) : Good c.swap := ⟨g.inv.swap, g.inv2.swap⟩
+
+theorem Good.reconnect {c : Cfg} (g : Good c) (ra rb : Reconn) : Good (c.reconnect ra rb) :=
+  ⟨g.inv.reconnect ra rb, g.inv2.reconnect ra rb⟩
+
+theorem Good.deliverAll {fp : Hash → Bool} : ∀ (l : List Message) (c : Cfg),
+    c.linkAB = l → Good c → Good (deliverAllAB l c)
+  | [], _, _, h => h
+  | m :: rest, c, hl, h =>
+    Good.deliverAll (fp := fp) rest (c.recvB m rest) rfl (h.step (fp := fp) (Step.recv c m rest hl))
+
+theorem Good.halfRound (fp : Hash → Bool) {c : Cfg} (g : Good c) : Good (halfRound fp c) :=
+  Good.deliverAll (fp := fp) _ _ rfl (g.step (Step.gen c))
+
+theorem Good.round (fp : Hash → Bool) {c : Cfg} (g : Good c) : Good (round fp c) :=
+  (((g.halfRound fp).swap).halfRound fp).swap
+
+theorem Good.rounds (fp : Hash → Bool) : ∀ (n : Nat) {c : Cfg}, Good c → Good (rounds fp n c)
+  | 0, _, g => g
+  | n + 1, _, g => Good.rounds fp n (g.round fp)
+
 end AmVerif.Sync.Prog
